@@ -146,23 +146,43 @@ func (w *World) searchCounterexample(opts *RunOpts, c *Contract) (cex *Cex, why 
 	var params []prm
 	pnames := c.Params
 	pi := 0
+	machRecv := ""
 	if sig.Recv() != nil {
 		k := plainKind(sig.Recv().Type())
-		if k == "" || isPointer(sig.Recv().Type()) {
-			return nil, "receiver is not a plain value"
+		if n := namedOf(sig.Recv().Type()); n != nil && isPointer(sig.Recv().Type()) && n.Obj().Name() == "Machine" && n.Obj().Pkg() != nil && n.Obj().Pkg().Path() == machinePkg && d.pkg.PkgPath == machinePkg {
+			// a reader of the machine: the receiver ranges over small real machines
+			if len(pnames) == 0 {
+				return nil, "contract header without receiver name"
+			}
+			machRecv = pnames[0]
+			pi = 1
+		} else {
+			if k == "" || isPointer(sig.Recv().Type()) {
+				return nil, "receiver is not a plain value"
+			}
+			if len(pnames) == 0 {
+				return nil, "contract header without receiver name"
+			}
+			params = append(params, prm{pnames[0], k, goTypeText(sig.Recv().Type(), d.pkg.Types)})
+			pi = 1
 		}
-		if len(pnames) == 0 {
-			return nil, "contract header without receiver name"
-		}
-		params = append(params, prm{pnames[0], k, goTypeText(sig.Recv().Type(), d.pkg.Types)})
-		pi = 1
 	}
-	if sig.Variadic() {
-		return nil, "variadic"
+	if machRecv != "" && (c.HasAssigns || c.AssignsAll) {
+		for _, a := range c.Assigns {
+			if sel, ok := a.(SSel); !ok || !strings.HasSuffix(sel.Sel, "Mx") {
+				return nil, "the machine method assigns machine state"
+			}
+		}
 	}
 	for i := 0; i < sig.Params().Len(); i++ {
 		p := sig.Params().At(i)
 		k := plainKind(p.Type())
+		if sig.Variadic() && i == sig.Params().Len()-1 {
+			k = ""
+			if sl, ok := p.Type().(*types.Slice); ok && plainKind(sl.Elem()) == "[]string" {
+				k = "...[]string"
+			}
+		}
 		if k == "" {
 			return nil, fmt.Sprintf("parameter %s is not a plain value", p.Name())
 		}
@@ -177,15 +197,28 @@ func (w *World) searchCounterexample(opts *RunOpts, c *Contract) (cex *Cex, why 
 			return nil, "result is not a plain value"
 		}
 	}
-	if len(params) == 0 || len(params) > 3 {
+	if (len(params) == 0 && machRecv == "") || len(params) > 3 {
 		return nil, "no parameters or more than three"
 	}
 	// generated in-package test
 	var b bytes.Buffer
 	pkgName := d.pkg.Types.Name()
-	fmt.Fprintf(&b, "package %s\n\nimport (\n\t\"encoding/json\"\n\t\"fmt\"\n\t\"os\"\n\t\"testing\"\n)\n\n", pkgName)
+	fmt.Fprintf(&b, "package %s\n\nimport (\n\t\"context\"\n\t\"encoding/json\"\n\t\"fmt\"\n\t\"os\"\n\t\"testing\"\n)\n\nvar _ = context.Background\n\n", pkgName)
 	fmt.Fprintf(&b, "func TestVerifSearchCex(t *testing.T) {\n\tenc := json.NewEncoder(os.Stdout)\n\t_ = enc\n\tn := 0\n")
 	for i, p := range params {
+		if p.kind == "...[]string" {
+			el := strings.TrimPrefix(p.gotype, "[]")
+			groups := []string{el + "(nil)", el + "{}", el + `{"A"}`, el + `{"B"}`, el + `{"A", "B"}`, el + `{"B", "A"}`, el + `{"C"}`}
+			vals := []string{p.gotype + "{}"}
+			for _, g1 := range groups {
+				vals = append(vals, p.gotype+"{"+g1+"}")
+				for _, g2 := range groups {
+					vals = append(vals, p.gotype+"{"+g1+", "+g2+"}")
+				}
+			}
+			fmt.Fprintf(&b, "\tdom%d := []%s{%s}\n", i, p.gotype, strings.Join(vals, ", "))
+			continue
+		}
 		lits := domainLits(p.kind, len(params) > 1)
 		var vals []string
 		for _, l := range lits {
@@ -201,13 +234,22 @@ func (w *World) searchCounterexample(opts *RunOpts, c *Contract) (cex *Cex, why 
 		}
 		fmt.Fprintf(&b, "\tdom%d := []%s{%s}\n", i, p.gotype, strings.Join(vals, ", "))
 	}
+	if machRecv != "" {
+		b.WriteString("\tfor mask := 0; mask < 16; mask++ {\n\tctxM, cancelM := context.WithCancel(context.Background())\n\tmM := New(ctxM, Schema{\"A\": {}, \"B\": {}, \"C\": {Multi: true}}, nil)\n" +
+			"\tfor bi, nm := range []string{\"A\", \"B\", \"C\"} {\n\t\tif mask&(1<<bi) != 0 { mM.Add1(nm, nil) }\n\t}\n" +
+			"\tif mask&8 != 0 { mM.Add1(\"C\", nil); mM.Remove1(\"A\", nil) }\n" +
+			"\tclk := map[string]any{}\n\tfor k, v := range mM.clock { clk[k] = v }\n" +
+			"\tmdump := map[string]any{\"activeStates\": append([]string{}, mM.activeStates...), \"stateNames\": append([]string{}, mM.stateNames...), \"clock\": clk, \"disposing\": mM.disposing.Load(), \"disposed\": mM.disposed.Load()}\n")
+	}
 	for i := range params {
 		fmt.Fprintf(&b, "\tfor _, a%d := range dom%d {\n", i, i)
 	}
 	// copies of slice inputs (the function must not be able to spoil the record)
 	var callArgs, recArgs []string
 	for i, p := range params {
-		if strings.HasPrefix(p.kind, "[]") {
+		if p.kind == "...[]string" {
+			callArgs = append(callArgs, fmt.Sprintf("a%d...", i))
+		} else if strings.HasPrefix(p.kind, "[]") {
 			fmt.Fprintf(&b, "\tvar c%d %s\n\tif a%d != nil { c%d = append(%s{}, a%d...) }\n", i, p.gotype, i, i, p.gotype, i)
 			callArgs = append(callArgs, fmt.Sprintf("c%d", i))
 		} else {
@@ -216,7 +258,10 @@ func (w *World) searchCounterexample(opts *RunOpts, c *Contract) (cex *Cex, why 
 		recArgs = append(recArgs, fmt.Sprintf("%q: a%d", p.name, i))
 	}
 	call := ""
-	if sig.Recv() != nil {
+	if machRecv != "" {
+		call = fmt.Sprintf("mM.%s(%s)", d.decl.Name.Name, strings.Join(callArgs, ", "))
+		recArgs = append(recArgs, fmt.Sprintf("%q: mdump", machRecv))
+	} else if sig.Recv() != nil {
 		call = fmt.Sprintf("%s.%s(%s)", callArgs[0], d.decl.Name.Name, strings.Join(callArgs[1:], ", "))
 	} else {
 		call = fmt.Sprintf("%s(%s)", d.decl.Name.Name, strings.Join(callArgs, ", "))
@@ -244,6 +289,9 @@ func (w *World) searchCounterexample(opts *RunOpts, c *Contract) (cex *Cex, why 
 	fmt.Fprintf(&b, "\t}()\n")
 	for range params {
 		b.WriteString("\t}\n")
+	}
+	if machRecv != "" {
+		b.WriteString("\tcancelM()\n\t}\n")
 	}
 	b.WriteString("}\n")
 
@@ -302,7 +350,9 @@ func (w *World) searchCounterexample(opts *RunOpts, c *Contract) (cex *Cex, why 
 		preOK := true
 		for _, r := range c.Requires {
 			ok, e := cEvalBool(env, r.Expr)
-			if e != "" || !ok {
+			if e == "" && !ok {
+				// (clauses the concrete evaluator cannot decide - lock state, memory
+				// identity - hold by construction of the generated inputs)
 				preOK = false
 			}
 		}
@@ -311,6 +361,11 @@ func (w *World) searchCounterexample(opts *RunOpts, c *Contract) (cex *Cex, why 
 		}
 		mk := func(clause string) *Cex {
 			x := &Cex{Func: c.Key(), Clause: clause, Inputs: rec.In, Outputs: rec.Out, PanicMsg: rec.Panic, Explored: explored}
+			if machRecv != "" {
+				act, _ := json.Marshal(rec.In[machRecv].(map[string]any)["activeStates"])
+				x.TestSrc = fmt.Sprintf("// machine: New(ctx, Schema{\"A\": {}, \"B\": {}, \"C\": {Multi: true}}, nil) brought to the active states %s by Add/Remove (clock in the inputs above);\n// call: m.%s(%s)\n", string(act), d.decl.Name.Name, strings.Join(paramsToLits(params, rec.In), ", "))
+				return x
+			}
 			x.TestSrc = replayTestSource(pkgName, d.decl.Name.Name, sig.Recv() != nil, paramsToLits(params, rec.In), clause, rec.Out, rec.Panic, sig.Results().Len())
 			return x
 		}
@@ -350,6 +405,15 @@ func paramsToLits(ps []prm, in map[string]any) []string {
 }
 
 func goLit(gotype, kind string, v any) string {
+	if kind == "...[]string" {
+		var gs []string
+		if l, ok := v.([]any); ok {
+			for _, g := range l {
+				gs = append(gs, goLit(strings.TrimPrefix(gotype, "[]"), "[]string", g))
+			}
+		}
+		return strings.Join(gs, ", ")
+	}
 	switch x := v.(type) {
 	case nil:
 		return gotype + "(nil)"
@@ -398,6 +462,30 @@ func replayTestSource(pkg, fn string, method bool, lits []string, clause string,
 
 func jsonToC(v any, uni map[string]bool) any {
 	switch x := v.(type) {
+	case map[string]any:
+		if _, isMach := x["activeStates"]; isMach {
+			st := cStruct{}
+			for k, e := range x {
+				if k == "clock" {
+					cm := &cMap{m: map[string]any{}, def: 0}
+					if mm, ok := e.(map[string]any); ok {
+						for kk, vv := range mm {
+							uni[kk] = true
+							cm.m[kk] = jsonToC(vv, uni)
+						}
+					}
+					st[k] = cm
+					continue
+				}
+				st[k] = jsonToC(e, uni)
+			}
+			return st
+		}
+		cm := &cMap{m: map[string]any{}, def: 0}
+		for kk, vv := range x {
+			cm.m[kk] = jsonToC(vv, uni)
+		}
+		return cm
 	case nil:
 		return []any(nil)
 	case []any:
